@@ -338,6 +338,9 @@ class Run:
                     self.so_name[n] = "c_so_%d.txt" % n
                     self.I.set_current(n)
                     self.I.sets("SetSelectedOutputFileName", os.path.join(d, self.so_name[n]))
+            # the instance remembers the dump file name it last used or was given (GetDumpFileName); a database load points the
+            # engine's DUMP destination back to it
+            self.dump_api = self.name["dump"]
             self.prev_sw = None
             for j, step in enumerate(case["steps"]):
                 if step["op"] == "load":
@@ -411,6 +414,7 @@ class Run:
             rc = I.load_db_string(BAD_DB)
         if (rc == 0) != bool(step["ok"]):
             raise Discard("unplanned_load_rc")
+        self.name["dump"] = self.dump_api
         where = "after %s LoadDatabase" % ("a good" if step["ok"] else "a failing")
         sw = self.prev_sw
         eo = sw["eo"] if sw else True
@@ -462,6 +466,8 @@ class Run:
         # names: -file options that were read rename the destinations from now on
         if meta["dump_fileopt"] and any(read(k) for k, _ in meta["dumps"]):
             self.name["dump"] = meta["dump_fileopt"]
+        if sw["df"] and done(0):
+            self.dump_api = self.name["dump"]
         for n, (k, fo) in meta["so_fileopt"].items():
             if read(k):
                 self.so_name[int(n)] = fo
